@@ -37,7 +37,7 @@ func (w *World) DialWT(maxPayload int64) *WTClient {
 	if maxPayload > 0 {
 		conn.SetReadLimit(maxPayload)
 	}
-	req := httptest.NewRequest("CONNECT", "/engine.io/", nil)
+	req := httptest.NewRequest("CONNECT", "/engine.io/?EIO=4&transport=webtransport", nil)
 	req.Proto = "webtransport"
 	ctx := types.NewHttpContext(httptest.NewRecorder(), req)
 	ctx.WebTransport = &types.WebTransportConn{EventEmitter: events.New(), Conn: conn}
